@@ -1026,6 +1026,86 @@ Definition pool_burst (cap n : N) : list tok :=
   [TN returned; TN accepted; tbool (negb (ps_stuck s1)); tbool (ps_busy s2 =? 0)].
 
 (* ------------------------------------------------------------------ *)
+(* Sequences of frames through the dispatcher: the host's state (phase, automata installed, IPv6CP open) evolves between
+   frames by an arbitrary function of the previous state and the previous outcome *)
+Fixpoint disp_run (next : dcfg -> result route -> dcfg) (cfg : dcfg) (frames : list (N * bytes)) : list (result route) :=
+  match frames with
+  | [] => []
+  | (proto, pl) :: r => let o := handle_frame Repaired cfg proto pl in o :: disp_run next (next cfg o) r
+  end.
+
+(* ------------------------------------------------------------------ *)
+(* Lock discipline of the PPPoE session's receive path (internal/pppoe/session.go, dhcpv6.go, ra.go; pkg/ppp/fsm.go): which
+   mutexes each handler path takes, in which order, and where it may block.  sync.Mutex is not re-entrant. *)
+Inductive lock := LS     (* SessionState.mu *)
+                | LL     (* LCP FSM.mu *)
+                | LI     (* IPCP FSM.mu *)
+                | LV     (* IPv6CP FSM.mu *)
+                | LR.    (* Component.raBucketMu *)
+Inductive lop :=
+| Acq (l : lock) | Rel (l : lock)
+| NonBlocking      (* select-with-default send, event-bus Publish, timer arm, async dataplane call, go statement *)
+| Blocking.        (* channel operation without default, provider exchange, anything that can wait for another goroutine *)
+Definition lock_eqb (a b : lock) : bool :=
+  match a, b with LS, LS | LL, LL | LI, LI | LV, LV | LR, LR => true | _, _ => false end.
+Definition lrank (l : lock) : N := match l with LS => 0 | LL => 1 | LI => 2 | LV => 3 | LR => 4 end.
+Definition holds (l : lock) (held : list lock) : bool := existsb (lock_eqb l) held.
+Definition drop (l : lock) (held : list lock) : list lock := filter (fun h => negb (lock_eqb l h)) held.
+(* a path is fine when it never acquires a lock it holds, acquires in increasing rank (one global order: no cyclic wait
+   between goroutines), releases only what it holds, and performs blocking operations with no lock held *)
+Fixpoint path_ok (held : list lock) (p : list lop) : bool :=
+  match p with
+  | [] => true
+  | Acq l :: r => negb (holds l held) && forallb (fun h => lrank h <? lrank l) held && path_ok (l :: held) r
+  | Rel l :: r => holds l held && path_ok (drop l held) r
+  | NonBlocking :: r => path_ok held r
+  | Blocking :: r => match held with [] => path_ok held r | _ => false end
+  end.
+Fixpoint held_after (held : list lock) (p : list lop) : list lock :=
+  match p with
+  | [] => held
+  | Acq l :: r => held_after (l :: held) r
+  | Rel l :: r => held_after (drop l held) r
+  | _ :: r => held_after held r
+  end.
+(* the paths of /repo HEAD, transcribed by hand (name = handler / trigger) *)
+Definition fsm_event (l : lock) (body : list lop) : list lop := Acq l :: body ++ [Rel l].   (* FSM.Input / Open / Up / Close *)
+Definition head_paths : list (N * list lop) :=
+  [ (* 1 handlePPP, LCP packet to the automaton; actions send (Publish) and arm timers *)
+    (1, Acq LS :: fsm_event LL [NonBlocking; NonBlocking] ++ [Rel LS]);
+    (* 2 LCP reaches Opened: onLCPUp -> startAuth (CHAP challenge: Publish + timer) *)
+    (2, Acq LS :: fsm_event LL [NonBlocking; NonBlocking; NonBlocking] ++ [Rel LS]);
+    (* 3 Code-Reject in Opened: rxjEvent does tld; irc; str inline (no call back into an exported FSM method) *)
+    (3, Acq LS :: fsm_event LL [NonBlocking; NonBlocking] ++ [Rel LS]);
+    (* 4 Protocol-Reject: handleProtocolReject closes the rejected NCP *)
+    (4, Acq LS :: NonBlocking :: fsm_event LI [NonBlocking] ++ [Rel LS]);
+    (* 5 PAP / CHAP packet: publishAAARequest *)
+    (5, [Acq LS; NonBlocking; Rel LS]);
+    (* 6 AAA verdict: onAuthResult accept -> startNCP opens both NCPs; reject -> LCP Close *)
+    (6, Acq LS :: NonBlocking :: fsm_event LI [NonBlocking] ++ fsm_event LV [NonBlocking] ++ [Rel LS]);
+    (7, Acq LS :: NonBlocking :: fsm_event LL [NonBlocking] ++ [Rel LS]);
+    (* 8 IPCP / IPv6CP packet; IPv6CP up: raBucketMu, raKicks (select default), checkOpen (Publish, async dataplane) *)
+    (8, Acq LS :: fsm_event LI [NonBlocking; NonBlocking; NonBlocking] ++ [Rel LS]);
+    (9, Acq LS :: fsm_event LV [NonBlocking; Acq LR; Rel LR; NonBlocking; NonBlocking; NonBlocking] ++ [Rel LS]);
+    (* 10 echo request / reply *)
+    (10, [Acq LS; NonBlocking; Rel LS]);
+    (* 11 in-band DHCPv6: dispatchDHCPv6 (select default on dhcp6Sem, go worker) *)
+    (11, [Acq LS; NonBlocking; NonBlocking; Rel LS]);
+    (* 12 DHCPv6 worker: snapshot under s.mu, provider exchange with NO lock, reply (Publish), bind under s.mu, release slot *)
+    (12, [Acq LS; Rel LS; Blocking; NonBlocking; Acq LS; Rel LS; NonBlocking; NonBlocking]);
+    (* 13 terminate(): the three automata are killed one after the other *)
+    (13, Acq LS :: NonBlocking :: fsm_event LI [] ++ fsm_event LV [] ++ fsm_event LL [] ++ [NonBlocking; Rel LS]);
+    (* 14 FSM restart timer (time.AfterFunc): FSM.Timeout under the FSM lock only, sends (Publish) *)
+    (14, fsm_event LL [NonBlocking; NonBlocking]);
+    (* 15 CHAP retry timer *)
+    (15, [Acq LS; NonBlocking; NonBlocking; Rel LS]) ].
+(* the two seeded changes of this class *)
+Definition path_q2 : list lop :=      (* rxjEvent calls the exported Close() while FSM.Input holds f.mu *)
+  Acq LS :: Acq LL :: fsm_event LL [NonBlocking] ++ [Rel LL; Rel LS].
+Definition path_m2 : list lop :=      (* dispatchDHCPv6 waits for a worker slot under the session lock *)
+  [Acq LS; Blocking; NonBlocking; Rel LS].
+
+(* ------------------------------------------------------------------ *)
 (* one entry point for the driver: entry id, numeric arguments, byte-string arguments *)
 Definition arg (k : nat) (l : list N) : N := nth k l 0.
 Definition barg (k : nat) (l : list bytes) : bytes := nth k l [].
